@@ -10,7 +10,7 @@ import (
 
 // C08: command selection and option scoping.
 
-var c08Decl = &GenCfg{Depth: 4, Fanout: 3, MaxOpts: 3, MaxGroups: 2, NestGroups: 1, Kinds: []Kind{KBool, KString, KInt, KStringSlice, KBoolSlice, KMapSS, KFuncS, KTri},
+var c08Decl = &GenCfg{Depth: 4, Fanout: 3, MaxOpts: 3, MaxGroups: 2, NestGroups: 1, Kinds: []Kind{KBool, KString, KInt, KStringSlice, KBoolSlice, KMapSS, KFuncS, KTri, KToggle},
 	Pos: true, PosPct: 12, Ns: true, Req: 3, OptArg: true, Aliases: true, SubOpt: 30, NonASCII: true, Defaults: true, CmdPct: 92, Hidden: true, ViaAdd: 3,
 	ParserOpts: []flags.Options{flags.HelpFlag, flags.PassDoubleDash, flags.PassAfterNonOption}}
 
